@@ -251,7 +251,9 @@ def plan(tier):
     return {
         "design": [("single", dict(max_events=1, wfc=2, liveness=True)),
                    ("media", dict(max_events=1, wfc=1, liveness=True, traffic=True, phases=["mediaFlowing"])),
-                   ("flap", dict(max_events=1, wfc=1, liveness=True, phases=["channelsOpen", "renegotiating"],
+                   # (no pending wait_for_connected here: with the slow fallbacks switched off it legitimately keeps
+                   # waiting in Disconnected + IceDisconnected)
+                   ("flap", dict(max_events=1, wfc=0, liveness=True, phases=["channelsOpen", "renegotiating"],
                                  flaps=2, ice_fallback=False)),
                    ("answerer", dict(max_events=1, wfc=1, liveness=True, answerer=True,
                                      phases=["created", "offerMade", "checking", "dtlsHandshaking", "sctpConnecting",
